@@ -49,6 +49,12 @@ def boundary_doubles(rng, n_random):
           9007199254740991.0, 9007199254740992.0, 9007199254740994.0, -9007199254740992.0,
           4294967296.0, 2147483648.0, 123456789012345680.0, 1e15, 1e16, 1e17, 0.30000000000000004,
           3.141592653589793, 1 / 3, 100.0, 1e100, 1.0000000000000002, 0.9999999999999999]
+    # integer-valued doubles around the ranges of the machine integer types a reader may go through (i32, i64, u64)
+    for k in list(range(30, 34)) + list(range(50, 70)) + [100, 127, 128]:
+        p2 = float(2 ** k)
+        xs += [p2, -p2, math.nextafter(p2, 0.0), math.nextafter(p2, math.inf), -math.nextafter(p2, math.inf)]
+    for k in range(15, 26):
+        xs += [float(10 ** k), -float(10 ** k), float(3 * 10 ** k)]
     for e in range(-320, 309, 7):
         xs.append(float(f"1e{e}"))
         xs.append(float(f"-7.3e{e}"))
